@@ -60,6 +60,21 @@ def pick_k(ctx, ks=(1, 2, 2, 3, 3), kt=(1, 2, 2, 3, 3, 4, 5)):
 
 
 # =============================================================================== C01
+def storage_variants(rng, g, tbl):
+    """the same graph and the same table held in other NumPy storage types (narrow signed types for the accessor,
+    signed and UNSIGNED types for a table - its rows are permutations of 0..3 whatever the type): an `extra` for ctx.corr,
+    or None for the default int64 objects."""
+    if rng.random() < 0.6:
+        return None
+    extra = {}
+    if tbl is not None:
+        extra["tbl"] = np.array(tbl, dtype=rng.choice([np.uint8, np.uint8, np.int8, np.uint16, np.int32, np.uint64, np.int64]))
+    acc_types = [np.int64, np.int32] + ([np.int16] if g.n < 2 ** 15 else []) + ([np.int8] if g.n < 2 ** 7 else [])
+    if rng.random() < 0.5:
+        extra["acc"] = np.array(g.rows(), dtype=rng.choice(acc_types))
+    return extra or None
+
+
 def C01(ctx):
     rng = ctx.rng
     maxlen = 512 if ctx.thorough else 64
@@ -73,15 +88,18 @@ def C01(ctx):
         bits = gen.rand_bits(rng, maxlen if rng.random() < 0.1 else 40)
         vtlen = rng.choice([0, 0, 1, 2, 5, 8, 33 if rng.random() < 0.3 else 3, 40 if ctx.thorough else 4])
         a, tt, bt = g.token(), tbl_token(tbl), bits_token(bits)
-        e = ctx.corr("enc %s %s %d %s %d %d" % (a, tt, v, bt, int(fast), vtlen))
+        extra = storage_variants(rng, g, tbl)
+        e = ctx.corr("enc %s %s %d %s %d %d" % (a, tt, v, bt, int(fast), vtlen), extra)
         r = parse_ok(e)
         key = "enc %s %s %d %s %d %d" % (a, tt, v, bt, int(fast), vtlen)
+        if extra:
+            key += " [" + ",".join("%s:%s" % (n_, o_.dtype) for n_, o_ in sorted(extra.items())) + "]"
         if r is None:
             ctx.fail("encode raised on a well-formed graph", line=key, observed=e)
             ctx.case(key, False)
             continue
         strand, chk = r[0], r[1]
-        d = ctx.corr("dec %s %s %d %s %d %d %s" % (a, tt, v, strand, len(bits), int(fast), chk))
+        d = ctx.corr("dec %s %s %d %s %d %d %s" % (a, tt, v, strand, len(bits), int(fast), chk), extra)
         if d != "ok " + bt:
             ctx.fail("decode(encode(m)) != m", line=key, strand=strand, check=chk, observed=d, expected="ok " + bt)
         s = proto.undash(strand)
@@ -100,6 +118,8 @@ def C01(ctx):
             cls.append("zero-message")
         if vtlen:
             cls.append("check-present")
+        if extra:
+            cls.append("storage-variant")
         cls.append("fast" if fast else "normal")
         ctx.case(key, nontriv, *cls)
 
@@ -322,6 +342,13 @@ def C07(ctx):
         chk = one(s, n)
         if L <= 17 and rng.random() < 0.3:
             neighbours(s, n, chk)
+    if ctx.part == 0:
+        # long strands: the ascent-position sum passes 2^16, 2^31 and 2^32 (narrow accumulators), with check lengths
+        # whose modulus 4^(n-1) exceeds those powers
+        for L in (700, 3000, 120000, 160000):
+            for s in (gen.rand_dna(rng, L), ("AC" * L)[:L]):
+                for n in (10, 17, 33):
+                    one(s, n)
     out = ctx.corr("vt ACGTN 3")
     if out != "err ValueError":
         ctx.fail("foreign character not reported as ValueError", line="vt ACGTN 3", observed=out)
@@ -460,6 +487,14 @@ def C02(ctx):
                     if bad:
                         ctx.fail("emitted strand has a window violating the filter", config=cfgkey, line=key,
                                  strand=s, window=bad[0])
+                    if not user:
+                        # ... and the constraints are the ones the caller configured (documented predicate of the
+                        # configuration handed to the constructor), not whatever the filter object made of them
+                        bad = [full[i:i + k] for i in range(len(full) - k + 1)
+                               if not oracle.filter_ref(k, run, motifs, gc, full[i:i + k])]
+                        if bad:
+                            ctx.fail("emitted strand has a window violating the configured constraints", config=cfgkey,
+                                     line=key, strand=s, window=bad[0])
                     if decidable:
                         for whole in (s, full):
                             if not flt.valid(whole, only_last=False):
@@ -884,6 +919,27 @@ def C12(ctx):
         ctx.case("flt %s %s" % (toks, s), flips >= 1, "accept" if whole else "reject",
                  "short" if len(s) < k else "long", *(["foreign"] if any(c not in NUC for c in s) else []))
 
+    # characters the line protocol cannot carry (white space, line ends, non-ASCII), at every position incl. the last:
+    # judged directly against the documented predicate (any character outside ACGT makes the verdict false)
+    for it in range(ctx.n(120, 3000)):
+        k = rng.choice([1, 2, 3, 5, 8])
+        run, gc, motifs = rand_cfg(rng, k)
+        st, flt = proto.guarded(lambda: mk(k, run, gc, motifs))
+        if st != "ok":
+            continue
+        n = rng.choice([1, 2, k, k + 1, 2 * k + 1])
+        base = gen.rand_dna(rng, n)
+        ch = rng.choice(["\n", "\n", " ", "\t", "\r", "\x0b", "\u00e9", "\u0391", "a", "t", "N", "-", "\x00"])
+        pos = rng.choice([n, n, 0, rng.randrange(n + 1)])
+        s_ = base[:pos] + ch + base[pos:]
+        for ol in (False, True):
+            if ol and pos < len(s_) - k:
+                continue                      # the foreign character is outside the last window
+            st, v = proto.guarded(lambda: flt.valid(s_, only_last=ol))
+            if st != "ok" or bool(v):
+                ctx.fail("a string with a character outside ACGT is not judged invalid", config=cfg_tokens(k, run, gc, motifs),
+                         string=repr(s_), only_last=ol, observed=str(v))
+        ctx.case("foreign %s %r" % (cfg_tokens(k, run, gc, motifs), s_), True, "foreign-unprintable")
     if ctx.thorough:
         cfgs = [(k,) + rand_cfg(rng, k) for k in (1, 2, 3, 4, 5) for _ in range(12)]
         strings = list(gen.all_strings(NUC, 6))
@@ -939,6 +995,26 @@ def C13(ctx):
             exp = proto.show_acc([[succ(v, j, k) for j in range(4)] for v in range(n)])
             if oc != exp:
                 ctx.fail("complete accessor does not hold the j-th successor in column j", k=k)
+    # large orders (vertex indices beyond 2^15 / 2^16: narrow index types): the constructors' tables obey the column law
+    if ctx.part == 0:
+        for k in ((7, 8, 9) if ctx.thorough else (8, rng.choice([7, 9]))):
+            n = 4 ** k
+            want = (np.arange(n)[:, None] * 4 + np.arange(4)[None, :]) % n
+            for dens in (1.0, 0.6):
+                m = np.ones(n, dtype=bool) if dens == 1.0 else np.array([rng.random() < dens for _ in range(n)], dtype=bool)
+                m[-1] = True                                   # the all-T k-mer: the largest index stays a target
+                exp = np.where(m[want] & m[:, None], want, -1)
+                st, a = proto.guarded(lambda: SW.connect_valid_graph(k, m.copy()), 120)
+                if st != "ok" or not np.array_equal(np.asarray(a), exp):
+                    bad = None if st != "ok" else [int(x) for x in np.argwhere(np.asarray(a) != exp)[0]]
+                    ctx.fail("valid graph of a large order: column j does not hold -1 or the j-th successor", k=k, density=dens,
+                             first_bad_cell=bad, observed=str(a)[:200] if st != "ok" else int(np.asarray(a)[bad[0], bad[1]]))
+                if dens == 1.0:
+                    st, r_ = proto.guarded(lambda: SW.connect_coding_graph(k, m.copy(), 4), 240)
+                    if st != "ok" or not np.array_equal(np.asarray(r_[1]), want):
+                        ctx.fail("coding graph of a large order (complete mask, threshold 4) is not the complete accessor", k=k,
+                                 observed=str(r_)[:200])
+                ctx.case("large-order k=%d dens=%s" % (k, dens), True, "large-order")
     # converted graphs: column j holds -1 or the j-th successor, also for latter maps listing the
     # successors in another order
     for it in range(ctx.n(40, 600)):
@@ -1027,6 +1103,42 @@ def C13(ctx):
 def C14(ctx):
     rng = ctx.rng
     # (a leaf query given both or neither representation is outside C14: which error it raises is not checked)
+    # sparse graphs of order 4 and 5 whose ONLY arcs enter vertices at byte / word boundaries (255, 256, 511, 1023, the
+    # last vertex): a narrow integer type inside a conversion loses exactly these
+    if ctx.part == 0:
+        for k in (4, 5):
+            n = 4 ** k
+            for it in range(ctx.n(3, 20)):
+                targets = rng.sample([255, 256, 511, 512, 767, n - 1, n - 256, 0, 1][: 9 if k == 5 else 6], 3)
+                targets = [t_ % n for t_ in targets]
+                nib = [0] * n
+                for t_ in targets:
+                    preds = [(t_ // 4) + j * (n // 4) for j in range(4)]
+                    for u in rng.sample(preds, rng.choice([1, 2, 4])):
+                        nib[u] |= 1 << (t_ % 4)
+                for u in rng.sample(range(n), 5):
+                    nib[u] |= rng.randrange(1, 16)
+                g = gen.Graph(k, nib)
+                a, rows = g.token(), g.rows()
+                lm_exp = {u: [succ(u, j, k) for j in g.live(u)] for u in g.vertices()}
+                o = ctx.corr("a2l " + a)
+                if o != proto.enc_lmap(lm_exp):
+                    ctx.fail("latter map content wrong (sparse graph with arcs into byte-boundary vertices)", acc=a, observed=o[:300])
+                o2 = ctx.corr("l2a %s %d -" % (proto.enc_lmap(lm_exp), k))
+                if o2 != "ok " + proto.show_acc(rows):
+                    ctx.fail("accessor -> latter map -> accessor is not the identity (sparse, byte-boundary vertices)", acc=a)
+                ov = ctx.corr("verts " + a)
+                if ov != proto.show_nats(g.vertices()):
+                    ctx.fail("vertex listing wrong (sparse graph with arcs into byte-boundary vertices)", acc=a, observed=ov)
+                t0 = targets[0]
+                u0 = next(u for u in range(n) if (nib[u] >> (t0 % 4)) & 1 and succ(u, t0 % 4, k) == t0)
+                la = ctx.corr("leafa %s %d %d" % (a, u0, 1))
+                ll = ctx.corr("leafl %s %d %d" % (proto.enc_lmap(lm_exp), u0, 1))
+                exp_ends = sorted(str(succ(u0, j, k)) for j in g.live(u0))
+                if sorted(proto.undash(la).split(",")) != exp_ends or sorted(proto.undash(ll).split(",")) != exp_ends:
+                    ctx.fail("leaf query wrong on a sparse graph with arcs into byte-boundary vertices", acc=a, v=u0,
+                             observed=la + " / " + ll)
+                ctx.case("sparse-boundary " + a, True, "byte-boundary-targets")
     for it in range(ctx.n(200, 5000)):
         k = rng.choice([1, 2, 2, 3] if not ctx.thorough else [2, 3, 3, 4, 5])
         g = rng.choice([gen.rand_arc_subset, gen.rand_profile_graph])(rng, k)
@@ -1718,6 +1830,13 @@ def C18(ctx):
             ctx.fail("table is not 4^k rows of permutations of 0..3", k=k, seed=seed)
         if not (np.array_equal(t1, t2) and np.array_equal(t1, t3)):
             ctx.fail("same seed gives different tables", k=k, seed=seed)
+        # the same seed handed over as a NumPy integer (what a seed taken from an array is): still a seed
+        np_seed = rng.choice([np.int64, np.int32, np.uint32, np.uint64])(seed)
+        st4, t4 = proto.guarded(lambda: SW.create_random_shuffles(k, random_seed=np_seed))
+        st5, t5 = proto.guarded(lambda: SW.create_random_shuffles(k, random_seed=np_seed))
+        if st4 != "ok" or st5 != "ok" or not np.array_equal(t4, t5) or not np.array_equal(t4, t1):
+            ctx.fail("the same seed given as a NumPy integer does not reproduce the table", k=k, seed=seed,
+                     seed_type=type(np_seed).__name__)
         for n, v in snap.items():
             if vars(SW).get(n) != v:
                 ctx.fail("module-level state changed by create_random_shuffles", name=n)
@@ -1833,6 +1952,35 @@ def canon(x):
 def C20(ctx):
     rng = ctx.rng
     import copy
+    # results that could be assembled from recycled memory: a fast-mode decode asked for MORE bits than the strand carries
+    # (a truncated read), repeated after calls that left all-one / all-zero buffers of the same size behind
+    for it in range(ctx.n(25, 400)):
+        k = rng.choice([1, 2, 2, 3])
+        g = gen.complete(k) if rng.random() < 0.5 else gen.rand_coding_graph(rng, k, t=2)[0]
+        vs = [x for x in g.vertices() if not g.has_deg3_from(x)]
+        if not vs:
+            continue
+        v = rng.choice(vs)
+        A = np.array(g.rows(), dtype=int)
+        L = rng.choice([8, 16, 24, 64, 200, 1000])
+        ones = np.ones(L, dtype=int)
+        full = SW.encode(ones, A, v, is_faster=True)
+        cut = full[:rng.randrange(0, max(1, len(full)))]
+        line = "dec %s - %d %s %d 1 None" % (g.token(), v, tok(cut), L)
+        results = []
+        for rep in range(3):
+            st, r_ = proto.guarded(lambda: SW.decode(cut, L, A, v, is_faster=True))
+            results.append((st, None if st != "ok" else [int(x) for x in r_]))
+            # leave garbage of the same size behind
+            filler = rng.choice([ones, np.zeros(L, dtype=int)])
+            proto.guarded(lambda: SW.decode(SW.encode(filler, A, v, is_faster=True), L, A, v, is_faster=True))
+            junk = [np.full(L, 7, dtype=int) for _ in range(4)]
+            del junk
+        if any(r_ != results[0] for r_ in results):
+            ctx.fail("the same fast-mode decode call returns different bits depending on what ran before it", line=line,
+                     observed=str(results)[:400])
+        ctx.corr(line)
+        ctx.case("truncated-fast " + line, True, "truncated-fast-decode")
     for it in range(ctx.n(40, 1500)):
         k = rng.choice([2, 2, 3])
         g, t = gen.rand_coding_graph(rng, k)
